@@ -18,7 +18,7 @@ func registerC01() {
 		Rule: "family fielddefs (complete enumeration): for each (message, field number) pair - quick: every known message x (each of its profile field numbers + 2 absent numbers); " +
 			"thorough: every known message and 8 unknown message numbers x all 256 field numbers - every base-type byte 0..255 x every size 0..255 x both byte orders: a stream " +
 			"(header, file_id, the one-field definition, one matching data record; two more data patterns, all-0xFF and NUL-rich, if the definition was accepted) is decoded under " +
-			"a panic/hang guard; every 61st stream also goes through all six entry points with 1-byte and greedy chunkers. Family mutants: PRNG structured mutations (bit/byte flips, " +
+			"a panic/hang guard; every rejected definition with a known base type is retried on a slot that already holds the same field definition for an unknown message; every 61st stream also goes through all six entry points with 1-byte and greedy chunkers. Family mutants: PRNG structured mutations (bit/byte flips, " +
 			"splices, truncation, extension, header edits, definition edits, record-header edits, size lies; CRC recomputed for half) of device files and model streams, each fed to the six " +
 			"entry points under three chunkers. A case is one stream; in family fielddefs each is distinct by construction and counted non-trivial because it reaches the definition validator; " +
 			"mutants are distinct by digest",
@@ -141,6 +141,29 @@ func c01FieldDefs(c *lib.Ctx, idx uint64) {
 		fc := fastCRC(0, b)
 		return append(b, byte(fc), byte(fc>>8))
 	}
+	// buildAfterOther: the same one-field definition first for an unknown message (with a data
+	// record), then for the message under test on the same local type, then data.
+	buildAfterOther := func(arch, base, size byte) []byte {
+		b := buf[:prefix]
+		for _, g := range []uint16{0xFF00, pair.mesg} {
+			b = append(b, 0x41, 0, arch)
+			if arch == 0 {
+				b = append(b, byte(g), byte(g>>8))
+			} else {
+				b = append(b, byte(g>>8), byte(g))
+			}
+			b = append(b, 1, pair.num, size, base)
+			b = append(b, 0x01)
+			b = append(b, patterns[0][:size]...)
+		}
+		n := len(b) - 14
+		b[4], b[5] = byte(n), byte(n>>8)
+		hc := fastCRC(0, b[:12])
+		b[12], b[13] = byte(hc), byte(hc>>8)
+		fc := fastCRC(0, b)
+		return append(b, byte(fc), byte(fc>>8))
+	}
+	redefs := int64(0)
 	count := int64(0)
 	for arch := byte(0); arch < 2; arch++ {
 		for base := 0; base < 256; base++ {
@@ -162,6 +185,21 @@ func c01FieldDefs(c *lib.Ctx, idx uint64) {
 					rejected++
 					if len(errTexts) < 200 {
 						errTexts[maskErr(res.Err.Error())] = true
+					}
+					// A rejected definition must stay rejected (or be decoded safely) when the same
+					// slot already holds an identically shaped definition of another message that
+					// admits it: validation may not depend on the slot's history.
+					if _, known := ref.BaseByCode(byte(base)); known {
+						b3 := buildAfterOther(arch, byte(base), byte(size))
+						o4 := lib.Guard(func() { lib.Call("Decode", lib.NewReader(b3, lib.Chunker{Kind: "whole"})) })
+						count++
+						redefs++
+						if o4.Panicked || o4.Hang {
+							nv++
+							if nv <= 3 {
+								c.Violation(b3, "Decode panicked/hung when a definition (message %d field %d base %#02x size %d arch %d) replaces an identically shaped definition of an unknown message on the same local type: %s\n%s", pair.mesg, pair.num, base, size, arch, o4.Panic, o4.Stack)
+							}
+						}
 					}
 				} else {
 					accepted++
@@ -199,6 +237,7 @@ func c01FieldDefs(c *lib.Ctx, idx uint64) {
 	c.NontrivialN(131072)
 	c.Count("definitions_accepted", accepted)
 	c.Count("definitions_rejected", rejected)
+	c.Count("rejected_definitions_retried_after_other_definition_on_same_slot", redefs)
 	for base, n := range accByBase {
 		if n > 0 {
 			c.Count(fmt.Sprintf("accepted_base_%#02x", base), n)
